@@ -34,7 +34,7 @@ def absle(x, b): return z3.And(x <= b, -x <= b)
 def validate(ck, mod, tier):
     """Encoder validation: interpreter in IEEE-float mode vs g++ build of the same harness (repo unit-test boxes + random)."""
     rnd = random.Random(common.SEED)
-    binp = common.native_build([common.harness_path(HARNESS)], 'C02_native', extra=['-I' + common.REPO], libs=LIBS, defs=['VERIF_NATIVE'])
+    binp = common.native_build([common.harness_path(HARNESS)], 'C02_native', extra=['-I' + common.REPO], libs=LIBS, defs=['VERIF_NATIVE'], cxx=common.CLANG)
     cases = []
     # boxes from csg/src/tests/test_boundarycondition.cc: orthorhombic 1,2,1(approx) and triclinic
     fixed = [('ortho', [1.0, 0, 0, 0, 2.0, 0, 0, 0, 1.0]), ('tric', [1.0, 0, 0, 0.5, 2.0, 0, 0.25, -0.7, 1.5]), ('open', [0.0] * 9), ('tric', [3.0, 0, 0, -1.5, 2.5, 0, 1.0, 1.25, 4.0])]
